@@ -204,3 +204,64 @@ func vc_C11_tosvg_sequence() {
 	vfReach("ToSVG returned")
 	vfCheckSVG(all, "ToSVG")
 }
+
+// C11, two producers of line segments into one Line2Buffer.
+type vfScript2Par struct{ a, b [][]*sdf.Line2 }
+
+func (r *vfScript2Par) Render(s sdf.SDF2, out sdf.Line2Writer) {
+	done := make(chan bool)
+	for _, bs := range [][][]*sdf.Line2{r.a, r.b} {
+		go func(bs [][]*sdf.Line2) {
+			for _, b := range bs {
+				out.Write(b)
+			}
+			done <- true
+		}(bs)
+	}
+	<-done
+	<-done
+	out.Close()
+}
+func (r *vfScript2Par) Info(s sdf.SDF2) string { return "scripted, two producers" }
+
+func vc_C11_two_producers_lines() {
+	vfSchedPolicy(vfCase("policy", 4))
+	vfSchedYield(true)
+	pats := [][2][]int{{{1, 1, 1}, {2, 2}}, {{127, 3}, {1, 127}}, {{50, 50, 50}, {30, 30, 30, 30}}, {{128}, {128, 1}}}
+	pp := pats[vfCase("pattern", len(pats))]
+	ba, alla := vfMakeLines(pp[0], 0)
+	bb, allb := vfMakeLines(pp[1], 0)
+	var got []*sdf.Line2
+	out, wg := vfCollectLines(&got)
+	(&vfScript2Par{ba, bb}).Render(nil, sdf.NewLine2Buffer(out))
+	close(out)
+	wg()
+	vfReach("lines collected (two producers)")
+	vfAssert(len(got) == len(alla)+len(allb), "collector holds as many segments as both producers wrote")
+	ia, ib := 0, 0
+	for _, t := range got {
+		switch {
+		case ia < len(alla) && t == alla[ia]:
+			ia++
+		case ib < len(allb) && t == allb[ib]:
+			ib++
+		default:
+			vfAssert(false, "collector holds each producer's segments exactly once and in that producer's order")
+			return
+		}
+	}
+	vfAssert(ia == len(alla) && ib == len(allb), "collector holds every segment of both producers")
+}
+
+// vfCollectLines: a consumer goroutine appending everything received to *dst; the returned function waits for it.
+func vfCollectLines(dst *[]*sdf.Line2) (chan []*sdf.Line2, func()) {
+	ch := make(chan []*sdf.Line2)
+	done := make(chan bool)
+	go func() {
+		for ls := range ch {
+			*dst = append(*dst, ls...)
+		}
+		done <- true
+	}()
+	return ch, func() { <-done }
+}
